@@ -27,6 +27,13 @@ TB = [
     "`sig check` (missing-values CSV, matching manifest, one or two databases), `sig grep` (-v, -i, --silent, --count, --csv), `search --picklist`, "
     "`gather --picklist` over every container kind a path can load, and compares with the reference meaning of each selector; this pass is an "
     "oracle test (no Lean model of the argument parsing / command glue)",
+    "adapter-level assertions (reported as ` !flag` suffixes, judged by the oracle, unknown to the model): every listing is read twice and "
+    "through signatures_with_location(); len()/bool()/manifest rows against the listing; every collection listed earlier in the case is "
+    "re-listed after later calls; CollectionManifest._select and the SQL of an in-memory SqliteCollectionManifest are compared row for "
+    "signature with select_signature on every signature a select is applied to; picklist.filter() against `in`; searches are asked through "
+    "two of search / search(do_containment) / prefetch / find and best_containment() must lie inside a non-empty result; picklists are built "
+    "through four spellings (argument string with / without style, constructor + load, init + add); LinearIndex ksize/moltype selections "
+    "alternate with the loader's native selector (DNA members only, see C09.1)",
     "python csv, zipfile, sqlite3, json",
 ]
 AS = [
